@@ -69,12 +69,12 @@ struct op { int kind; long a, b, c, d; int lo, hi; char * evs; size_t pos; };
 #define MAXOPS 512
 static struct op ops[MAXOPS]; static int nops;
 
-struct ureq { int id, kind, fd, pending, lo, hi; uint8_t * buf; size_t buflen; void * cookie; };
+struct ureq { int id, kind, fd, pending, lo, hi; uint8_t * buf; size_t buflen; void * cookie; int returned; };
 #define MAXREQ 128
 static struct ureq reqs[MAXREQ]; static int nreqs;
 
 static struct netbuf_read * NR; static int nr_fd, nr_waiting, nr_lo, nr_hi;
-static struct netbuf_write * NW; static int nw_reserved, nfail; static uint8_t * nw_resptr;
+static struct netbuf_write * NW; static int nw_reserved, nfail; static uint8_t * nw_resptr; static size_t nw_reslen;
 static int incb;			/* depth of user callbacks */
 static int af_single;			/* af=<k> mode without 'p': retry failed registrations once */
 static int run_failed;			/* events_run returned non-zero */
@@ -163,12 +163,34 @@ static void exec_range(int lo, int hi);
 
 static void show_buf(char * out, const uint8_t * p, size_t n) { fk_show(out, p, n); }
 
+/* network.h lends the buffer of a read / write to the library until the callback is invoked or the
+ * request is cancelled.  From then on it is the caller's: the driver overwrites it at once (for a
+ * read: after having reported what arrived) and checks at the end of the case that nobody has
+ * written to it since (" !BUFTOUCH<id>"); a write that is still being served from the old address
+ * puts the overwritten bytes on the wire. */
+static void buf_returned(struct ureq * u)
+{
+	if (u->buf == NULL) return;
+	memset(u->buf, DRV_SCRIBBLE, u->buflen);
+	u->returned = 1;
+}
+static void bufs_check(void)
+{
+	int k; size_t j;
+	for (k = 0; k < nreqs; k++) {
+		if (!reqs[k].returned) continue;
+		for (j = 0; j < reqs[k].buflen; j++)
+			if (reqs[k].buf[j] != DRV_SCRIBBLE) { printf(" !BUFTOUCH%d", reqs[k].id); break; }
+	}
+}
+
 static int cb_rw(void * cookie, ssize_t v)
 {
 	struct ureq * u = cookie; char sh[64];
 	fk_activity++;
 	if (u->kind == O_READ) { show_buf(sh, u->buf, u->buflen); fk_log("cb%d=%zd:%s", u->id, v, sh); }
 	else fk_log("cb%d=%zd", u->id, v);
+	buf_returned(u);
 	u->pending = 0;
 	incb++; exec_range(u->lo, u->hi); incb--;
 	return 0;
@@ -241,6 +263,7 @@ static void cancel_req(struct ureq * u)
 	if (u->kind == O_READ) network_read_cancel(u->cookie);
 	else if (u->kind == O_WRITE) network_write_cancel(u->cookie);
 	else network_accept_cancel(u->cookie);
+	buf_returned(u);
 	u->pending = 0;
 }
 
@@ -317,7 +340,8 @@ static void exec_op(int i)
 		rc = netbuf_write_write(NW, d, (size_t)o->a);
 		fk_log("nww%ld=%d", o->a, rc);
 		hit(i);
-		__real_free(d);
+		/* netbuf.h: "write buflen bytes from buf via the buffered writer" - nothing is lent */
+		drv_scribble(d, (size_t)o->a); __real_free(d);
 		break; }
 	case O_NWR:
 		if (NW == NULL || nw_reserved) { fk_log("skip"); break; }
@@ -325,11 +349,14 @@ static void exec_op(int i)
 		fk_fail_hit = 0;
 		nw_resptr = netbuf_write_reserve(NW, (size_t)o->a);
 		fk_log("nwr%ld=%s", o->a, nw_resptr ? "ok" : "null");
-		if (nw_resptr) nw_reserved = 1;
+		if (nw_resptr) { nw_reserved = 1; nw_reslen = (size_t)o->a; }
 		if (hit(i) && nw_resptr == NULL && af_single && tries++ == 0) goto nwr_again;
 		break;
 	case O_NWC:
 		if (NW == NULL || !nw_reserved) { fk_log("skip"); break; }
+		/* netbuf.h: the whole reservation is the caller's to write into, whatever part of it is
+		 * consumed afterwards: the unconsumed rest is left holding junk */
+		memset(nw_resptr, DRV_SCRIBBLE, nw_reslen);
 		fk_fill(nw_resptr, 200, o->pos, (size_t)o->a);
 		fk_fail_hit = 0;
 		rc = netbuf_write_consume(NW, (size_t)o->a);
@@ -388,6 +415,7 @@ static void case_sc(char ** tok, int ntok)
 	if (NW != NULL) netbuf_write_free(NW);
 	fk_fail_at = 0;
 	{ unsigned long a = fk_activity; events_run(); fk_log("nfds=%lu", fk_last_nfds); if (a != fk_activity) fk_log("late-activity"); }
+	bufs_check();
 	for (k = 0; k < nreqs; k++) __real_free(reqs[k].buf);
 	{
 		/* how send() was called: judged by areas/net.py against the build configuration */
@@ -467,6 +495,9 @@ again:
 	}
 	fk_log("fin=%s", conn_done ? "done" : "running");
 	if (!conn_done) { network_connect_cancel(C); conn_done = 1; }
+	/* the attempt is over (callback made, or cancelled): the address list it borrowed is the
+	 * caller's again and is overwritten before the loop is run once more below */
+	drv_scribble(sin, sizeof(sin)); drv_scribble(sa, sizeof(sa)); drv_scribble(sas, sizeof(sas));
 	fk_log("open=%d", fk_open_sockets());
 	fk_log("end");
 	/* impl-only: nothing may be left behind (a stale timer or registration would fire here) */
